@@ -50,6 +50,8 @@ class EProg(pg.Prog):
         p = EProg([EAdt(a.name, a.nparams, list(a.wcs), list(a.variants[0])) for a in self.adts],
                   [ETrait(t.name, t.nextra, list(t.wcs), t.flags) for t in self.traits],
                   [pg.Impl(i.nvars, i.head, list(i.wcs), i.positive) for i in self.impls], self.shape)
+        for new, old in list(zip(p.adts, self.adts)) + list(zip(p.traits, self.traits)) + list(zip(p.impls, self.impls)):
+            new.upstream = getattr(old, "upstream", False)       # `#[upstream]`: declared in another crate
         p.order = list(self.order)
         return p
 
@@ -87,6 +89,11 @@ def atom_text(a, vname):
 
 
 def item_text(p: EProg, kind, i):
+    item = {"adt": p.adts, "trait": p.traits, "impl": p.impls}[kind][i]
+    return ("#[upstream] " if getattr(item, "upstream", False) else "") + _item_text(p, kind, i)
+
+
+def _item_text(p: EProg, kind, i):
     if kind == "adt":
         a = p.adts[i]
         params = "<%s>" % ", ".join(_ivar(k) for k in range(a.nparams)) if a.nparams else ""
@@ -697,6 +704,18 @@ def gen_wf_program(rng):
     if muts and rng.random() < 0.45:
         missing, f = rng.choice(muts)
         f(p)
+    # `#[upstream]` items: an upstream impl / struct is WF-checked exactly like a local one (the
+    # attribute only matters for the orphan rules: a local impl of an upstream trait would need a
+    # local type, so impls of upstream traits are made upstream too)
+    if rng.random() < 0.5:
+        for t in p.traits:
+            t.upstream = rng.random() < 0.25
+        for a in p.adts:
+            a.upstream = rng.random() < 0.25
+        for im in p.impls:
+            im.upstream = p.trait(im.head[0]).upstream or rng.random() < 0.35
+        if missing:
+            missing += " (with #[upstream] items)"
     p.order = ([("adt", i) for i in range(len(p.adts))] + [("trait", i) for i in range(len(p.traits))]
                + [("impl", i) for i in range(len(p.impls))])
     if rng.random() < 0.5:
@@ -791,4 +810,15 @@ def corpus_c21():
     a, t = base()
     a += [EAdt("Vec", 1, [], []), EAdt("MyType2", 1, [], [adt("Vec", adt("Vec", var(0))), adt("Vec", var(0)), adt("Set", var(0))])]
     out.append((EProg(a, t, [], "corpus-repeated-field"), {"missing": "bound of a field type that follows a type repeated inside another field"}))
+    # `#[upstream]` impls are WF-checked like local ones: trait Sub where Self: Super {}  #[upstream] impl Sub for Foo {}
+    for up_impl, with_super, missing in ((True, False, "supertrait impl of an #[upstream] impl"), (True, True, None), (False, False, "supertrait impl")):
+        p = EProg([EAdt("Foo")], [ETrait("Super"), ETrait("Sub", 0, [impl_atom("Super", var(0))])],
+                  [pg.Impl(0, ("Sub", (adt("Foo"),)))] + ([pg.Impl(0, ("Super", (adt("Foo"),)))] if with_super else []), "corpus-upstream")
+        p.impls[0].upstream = up_impl
+        out.append((p, {"missing": missing}))
+    p = EProg([EAdt("Wrap", 1, [], [])], [ETrait("Eq"), ETrait("Hash", 0, [impl_atom("Eq", var(0))])],
+              [pg.Impl(1, ("Eq", (adt("Wrap", var(0)),)), [("Eq", (var(0),))]), pg.Impl(1, ("Hash", (adt("Wrap", var(0)),)))], "corpus-upstream")
+    p.impls[1].upstream = True
+    p.adts[0].upstream = True
+    out.append((p, {"missing": "where-clause of an #[upstream] impl"}))
     return out
